@@ -1,3 +1,3 @@
 #!/bin/bash
 # seed_sweep.sh "<seeds>" : run all claimed quick checks sequentially for each seed; log to /tmp/seed_<seed>_<prop>.log
-for s in $1; do for p in $(cat /verif/props/CLAIMED); do VERIF_SEED=$s ./check $p --tier quick > /tmp/seed_${s}_$p.log 2>&1; echo rc=$? >> /tmp/seed_${s}_$p.log; done; done
+for s in $1; do for p in $(cat /verif/props/CLAIMED); do VERIF_EVIDENCE_DIR=/tmp/seed_evidence VERIF_SEED=$s ./check $p --tier quick > /tmp/seed_${s}_$p.log 2>&1; echo rc=$? >> /tmp/seed_${s}_$p.log; done; done
